@@ -29,6 +29,9 @@ import (
 var (
 	verifDir = envOr("VERIF_DIR", "/verif")
 	repoDir  = envOr("VERIF_REPO", "/repo")
+	// outDir receives evidence/ and replays/; only the seeded-change matrix, which runs the checks
+	// against scratch worktrees, points it away from /verif
+	outDir = envOr("VERIF_OUT", verifDir)
 )
 
 func envOr(k, d string) string {
@@ -516,7 +519,7 @@ type replayFile struct {
 }
 
 func writeReplay(id string, u *Unit, h *Harness, params map[string]int64, v *symgo.Violation) string {
-	dir := filepath.Join(verifDir, "replays")
+	dir := filepath.Join(outDir, "replays")
 	os.MkdirAll(dir, 0o755)
 	uu := *u
 	uu.Harnesses = nil
